@@ -124,6 +124,9 @@ def motion_notify_rule(ctx, cg=None):
 
 
 def run(ctx):
+    from ..shared import copy_out_rule as _copy_out_rule
+
+    _copy_out_rule(ctx, "R14.13", ["Get_K_C_M_F"], "EasyFEA.Simulations._simu._Simu")
     from ..shared import state_alias_rule as _state_alias_rule
 
     _state_alias_rule(ctx, "R14.11", scope=lambda f, _s=("EasyFEA.FEM", "EasyFEA.Simulations", "EasyFEA.Models"): f.module.name.startswith(_s), min_instances=500)
